@@ -1973,6 +1973,14 @@ def run(tier):
               'are reset and rebuilt from the current input before every '
               'sweep (shared with C02.R6 / C16.R6): a symbol introduced by '
               'an accepted proposal is seen by the next one', sub2)
+    from .. import genreuse
+    chk.guard(genreuse.rule, chk, prog, 'C15.R9',
+              'a mutator does not traverse a one-shot iterator twice on one '
+              'path', {m_.name: None for m_ in prog.pkg_modules()
+                       if m_.name.startswith('mutators_')
+                       or m_.name in ('smtlib', 'mutator_utils')},
+              'the proposals built from the second traversal are empty or '
+              'truncated terms')
     extra = None
     if tier == 'thorough':
         from .. import selftest
